@@ -841,6 +841,19 @@ func damageArtifact(cur []byte, state string) []byte {
 		return cat([]byte("#HASH:!!!not base64!!!\n"), certB, keyB)
 	case "crlf":
 		return bytes.ReplaceAll(cur, []byte("\n"), []byte("\r\n"))
+	// the hash line in other places of the file than the first line
+	case "hash-last-no-newline":
+		return cat(certB, keyB, bytes.TrimRight(hashLine, "\n"))
+	case "hash-last":
+		return cat(certB, keyB, hashLine)
+	case "hash-marker-only-last":
+		return cat(certB, keyB, []byte("#HASH:"))
+	case "hash-between-blocks-no-newline-after":
+		return cat(certB, bytes.TrimRight(hashLine, "\n"), bytes.TrimLeft(keyB, "\n"))
+	case "hash-twice":
+		return cat(hashLine, certB, keyB, hashLine)
+	case "hash-marker-in-first-line-twice":
+		return cat([]byte("#HASH:#HASH:"), hashLine, certB, keyB)
 	}
 	return cur
 }
